@@ -15,7 +15,7 @@ func main() {
 	var scs []mcx.Scenario
 	for _, p := range scn.All() {
 		b, tb := 2, 3
-		if p.K == 1 && p.M <= 2 && p.Cancel == "" && p.Late == 0 {
+		if p.K == 1 && p.M <= 2 && p.Cancel == "" && p.Late == 0 && !p.Both && !p.Shared {
 			b, tb = -1, -1 // small enough to explore every schedule
 		}
 		sig := "cond"
@@ -23,7 +23,7 @@ func main() {
 			sig = fmt.Sprintf("cond/k=%d,m=%d,cancel=%v", p.K, p.M, p.Cancel != "")
 		}
 		sw := 0
-		if p.K >= 3 || p.K+p.Late >= 3 {
+		if p.K >= 3 || p.K+p.Late >= 3 || p.Both {
 			sw = 3
 		}
 		scs = append(scs, mcx.Scenario{Name: p.Name(), Body: p.Body(), Bound: b, ThoroughBound: tb, SwitchBound: sw, Family: sig, MaxTime: 5 * time.Minute})
